@@ -23,8 +23,8 @@ theorem get_latest_any_tier (cfg : Cfg) (ops : List Op) (k : Bytes)
   rw [readValue_eq_view h k]
   exact h.view k
 
-example : (run (init {}) [.set [1] [2], .flush true 0 ⟨.ok, 0⟩, .stage, .del [1], .batchGet [[1]], .cleanup,
-    .flushDone ⟨.ok, 0⟩]).failed = false := by decide
+example : (run (init {}) [.set [1] [2], .flush true 0 { res := .ok, applied := 0 }, .stage, .del [1], .batchGet [[1]], .cleanup,
+    .flushDone { res := .ok, applied := 0 }]).failed = false := by decide
 
 /-- the former counter-example `stage; set k v; BatchGet(k); cleanup; Get(k)` now reads "not found" -/
 example : readValue (run (init {}) [.stage, .set [0x6b] [0x09], .batchGet [[0x6b]], .cleanup]) [0x6b] = none := by decide
@@ -37,7 +37,7 @@ theorem delete_hides_all_tiers (cfg : Cfg) (ops : List Op) (k : Bytes)
     readValue (runBoth (init cfg, {}) ops).1 k = some [] := by
   rw [get_latest_any_tier cfg ops k hnf, hdel]
 
-example : (runBoth (init {}, {}) [.set [1] [2], .flush true 0 ⟨.ok, 0⟩, .flushDone ⟨.ok, 0⟩, .del [1]]).2.cur.get [1] = some [] := by
+example : (runBoth (init {}, {}) [.set [1] [2], .flush true 0 { res := .ok, applied := 0 }, .flushDone { res := .ok, applied := 0 }, .del [1]]).2.cur.get [1] = some [] := by
   decide
 
 /-! ## flush discipline -/
@@ -88,7 +88,30 @@ theorem flush_error_fails_txn (cfg : Cfg) (ops : List Op) (mem : Nat) (l1 l2 : C
     obtain ⟨⟨g, b, r, ho⟩, _⟩ := (commitOk_iff _ mem l1 l2).mp hc
     rcases h1 with h1 | h1 <;> rw [h1] at ho <;> cases ho
 
-example : (run (init {}) [.set [1] [2], .flush true 0 ⟨.ok, 0⟩, .flushDone ⟨.err, 0⟩]).errCh = some .err := by decide
+example : (run (init {}) [.set [1] [2], .flush true 0 { res := .ok, applied := 0 }, .flushDone { res := .err, applied := 0 }]).errCh = some .err := by decide
+
+/-- whatever KIND of error the flush function failed with (`Completion.kind`: a plain error, or an error chain containing
+    ErrKeyExist for a key that is or is not in the flushing buffer), `FlushWait` returns an error — never nil — namely the
+    translation `handleAlreadyExistErr` makes of it: the plain error itself, or the ErrKeyExist with the value the
+    flushing buffer holds for its key; and the transaction is marked failed -/
+theorem flush_error_kind_reported (cfg : Cfg) (ops : List Op) (late : Completion)
+    (he : (run (init cfg) ops).errCh = some .err) :
+    (doFlushWait (run (init cfg) ops) late).2 = .errFlush ∧
+    (doFlushWait (run (init cfg) ops) late).1.failed = true ∧
+    (doFlushWait (run (init cfg) ops) late).1.lastErr =
+      some (translate (run (init cfg) ops).flushing (run (init cfg) ops).errKind) := by
+  have h := inv2_run (sp := {}) ops (inv2_init cfg)
+  rw [runBoth_fst] at h
+  obtain ⟨hfl, hr⟩ := h.errFl (by rw [he]; rfl)
+  rcases doFlushWait_cases (run (init cfg) ops) late with ⟨_, hd⟩ | ⟨hf, _⟩
+  · rw [hd, await_of_not_running late hr]
+    unfold waitAfter failWith; simp [he]
+  · rw [hf] at hfl; cases hfl
+
+/-- a failing flush with an ErrKeyExist chain for a key of the flushed batch: reported with that key's value -/
+example : (doFlushWait (run (init {}) [.set [1] [2], .flush true 0 { res := .ok, applied := 0 },
+      .flushDone { res := .err, applied := 0, kind := .keyExist [1] }]) { res := .ok, applied := 0 }).1.lastErr
+    = some (.keyExist [1] (some [2])) := by decide
 
 /-- FULL sticky statement (callback layer of InitPipelinedMemDB): once a flush function has failed, no later Commit
     succeeds, whatever the caller does in between.  FALSE for the code as it stands: `committer.close()` only moves the
@@ -101,7 +124,7 @@ def flush_error_sticky : Prop :=
 
 theorem flush_error_sticky_false : ¬ flush_error_sticky := by
   intro h
-  have := h { layer := true } [.set [1] [2], .flush true 0 ⟨.ok, 0⟩, .flushDone ⟨.err, 0⟩] [.flushWait ⟨.ok, 0⟩] 0 ⟨.ok, 0⟩ ⟨.ok, 0⟩
+  have := h { layer := true } [.set [1] [2], .flush true 0 { res := .ok, applied := 0 }, .flushDone { res := .err, applied := 0 }] [.flushWait { res := .ok, applied := 0 }] 0 { res := .ok, applied := 0 } { res := .ok, applied := 0 }
     rfl (by decide)
   revert this
   decide
@@ -113,8 +136,8 @@ theorem flush_error_sticky_partial (cfg : Cfg) (ops1 ops2 : List Op) (mem : Nat)
     commitOk (run (run (init cfg) ops1) ops2) mem l1 l2 = false :=
   commit_fails_closed (by rw [run_cfg, run_cfg]; exact hl) (run_ttl_closed _ ops2 hc) mem l1 l2
 
-example : (run (init { layer := true }) [.set [1] [2], .flush true 0 ⟨.ok, 0⟩, .flushDone ⟨.ok, 0⟩, .set [3] [4],
-    .flush true 0 ⟨.ok, 0⟩, .flushDone ⟨.err, 0⟩]).ttl = .closed := by decide
+example : (run (init { layer := true }) [.set [1] [2], .flush true 0 { res := .ok, applied := 0 }, .flushDone { res := .ok, applied := 0 }, .set [3] [4],
+    .flush true 0 { res := .ok, applied := 0 }, .flushDone { res := .err, applied := 0 }]).ttl = .closed := by decide
 
 /-- a flush function that fails while the TTL manager is running closes it -/
 theorem failing_flush_closes_running_ttl (s : PState) (f : Buf) (c : Completion) (hl : s.cfg.layer = true)
